@@ -14,7 +14,8 @@ import vlib
 
 LEVEL = "model_checking"
 
-RULE = ("One event = one fit of one variant (Gaussian, multinomial, Bernoulli with/without binarisation, categorical) on an "
+RULE = ("The parameter object of every fit is built in a rotating order (every permutation of the variant's with_alpha / with_priors / "
+        "with_binarize calls, or direct field assignment), recorded as `built`. One event = one fit of one variant (Gaussian, multinomial, Bernoulli with/without binarisation, categorical) on an "
         "integer training set, all reported statistics, and the predictions for 1..10 query rows whose values occurred in training. "
         "Exhaustive: every training set with n <= 2 (quick) / n <= 3, p = 1 (thorough) rows of p <= 2 features over {0,1,2} and labels "
         "from {-3,2,7} ({0,1,3} categorical) in any order, two of the alphas {1/2, 1, 2, 5} each, every query of the column product; "
@@ -46,13 +47,15 @@ def key_of(e, clause):
         parts.append("rescaled")
     if v == "gaussian" and len(set(e.get("ecol", []))) > 1:
         parts.append("columns-rescaled")
+    if e.get("built"):
+        parts.append("built=" + e["built"])
     if e.get("backend", "dense") != "dense":
         parts.append(e["backend"])
     return " ".join(parts) + ": " + clause
 
 
 def what_of(e, clause):
-    small = {k: e[k] for k in ("variant", "X", "y", "aNum", "aDen", "hasThr", "thr2", "hasPriors", "priorsNum", "priorsDen", "e", "ecol", "backend")}
+    small = {k: e[k] for k in ("variant", "X", "y", "aNum", "aDen", "hasThr", "thr2", "hasPriors", "priorsNum", "priorsDen", "e", "ecol", "backend", "built")}
     if len(e["X"]) > 12:
         small["X"] = "(%d rows x %d features, see replay file)" % (len(e["X"]), len(e["X"][0]))
         small["y"] = "(see replay file)"
